@@ -201,9 +201,9 @@ E10 = dict(name='every subset of the registered leaves, features on/off (deploy 
 K18C = _o('oracle: CouplesAnalysis.MergeResults cell by cell (re-indexed sums, unions of touched files)', 'k18c', 8000, 300000,
           'pairs of couples results over 5 file names and 6 identities (shared e-mails / names), rows of the unmatched author, '
           'results as produced by Finalize and as read back from the binary format')
-K18B = _o('oracle: BurndownAnalysis.MergeResults developer histories and interaction matrix (known finding stream D6)', 'k18b', 4000, 150000,
-          'pairs of burndown results over two overlapping identity pools, 5 sampling/granularity pairs, begin dates up to 5 days apart; '
-          'failures accepted only in the class merged-identity-key')
+K18B = _o('oracle: BurndownAnalysis.MergeResults developer histories, interaction matrix, global history', 'k18b', 4000, 150000,
+          'pairs of burndown results over two overlapping identity pools, 5 sampling/granularity pairs, begin dates up to 5 days apart, '
+          'results without developer tracking on one side')
 PLAN4 = dict(name='prepareRunPlan validated (all graphs of 4 commits x all hash orders)', probe='kplan', fam=['pl'],
              quick=0, thorough=0, exhaustive=True, extra=['exh', '4'], shards={'quick': 2, 'thorough': 2},
              nontrivial=lambda ops, impl: ' F:' in ops[0] or ' M:' in ops[0],
